@@ -131,7 +131,15 @@ def range_bounds(P, R, rule='C18.TAB.2'):
             last = c - 1 if r[1] == '<' else c
             R.ob(rule, last == N - 1, P.relloc((f.blocks[b].get('term') or {}).get('loc', '?')), 'an upward walk over the severities continues while %s: it ends at severity %d, the last one is %d' % (e.describe(), last, N - 1), key='sev-upper:%s' % ('ok' if last == N - 1 else e.describe()))
             R.obligations[-1]['function'] = f.name
-    R.floor(rule, 2, '"*" and ">" walks')
+    # the same walks spelled as one call of a range primitive: (set, first, one-past-last)
+    for s in f.calls():
+        t = P.direct_target(f, s.ev.get('callee')) if s.ev.get('callee') else None
+        if t is not None and 'bitset' in t.unit and 'range' in t.name and len(s.ev['args']) >= 3 and isinstance(const_of(s.ev['args'][2]), int):
+            n += 1
+            last = const_of(s.ev['args'][2]) - 1
+            R.ob(rule, last == N - 1, s, 'the range %s(..., %s, %s) ends at severity %d, the last one is %d' % (t.name, sx(s.ev['args'][1]), sx(s.ev['args'][2]), last, N - 1), key='sev-upper:%s' % ('ok' if last == N - 1 else 'range'))
+    if n < 2:
+        raise AnalysisBroken('rule %s matched %d instance(s), floor is 2 ("*" and ">" walks) - the construct it is anchored in has vanished or changed shape' % (rule, n))
 
 
 def exact_names(P, R, rule='C18.TAB.3'):
@@ -211,6 +219,47 @@ def complete_text(P, R, rule='C18.MPT.5'):
             n += 1
             R.ob(rule, tested, s, 'in %s the result of %s into a %d-byte buffer is compared with that size before the buffer is used as the whole text' % (f.name, rhs['callee'], size), key='complete-text:%s' % f.name)
     R.floor(rule, 1, 'bounded formatter calls in the logging unit')
+
+
+def facility_by_name(P, R, rule='C18.TAB.8'):
+    """An entry "facility.severities" routes the facility it NAMES: the parser's `type` result is a pure output - it is
+    assigned (from the lookup of the text before the dot, or NULL) before it is ever read in that call.  Reading it
+    first means the facility of the previous entry takes part in deciding this one's (a name that is a prefix of
+    another - iauth / iauth_xquery - then swallows the other's entries)."""
+    f = P.need_fn('log_parse_type_sevset')
+    outp = [p['name'] for p in f.param_info if p.get('t', '').replace(' ', '').startswith('structlog_type**')]
+    if not outp:
+        raise AnalysisBroken('the entry parser no longer returns the facility through a parameter')
+    tp = outp[0]
+
+    def is_out(e):
+        return isinstance(e, dict) and e.get('k') == 'un' and e.get('op') == '*' and is_var(e.get('e'), tp)
+
+    def reads(ex, skip=None):
+        return any(is_out(x) and x is not skip for x in walk(ex))
+    problems = []
+
+    def on_event(st, t):
+        ev = t.ev
+        if st == 'unset':
+            for ex in rules.event_exprs(ev):
+                lhs = ev.get('lhs') if ev['k'] == 'store' else None
+                if ex is lhs and is_out(lhs) and ev.get('op') == '=':
+                    continue
+                if reads(ex):
+                    problems.append(t)
+        if ev['k'] == 'store' and is_out(ev.get('lhs')) and ev.get('op') == '=':
+            return 'set'
+        return st
+    before, _, _, bout = f.forward('unset', on_event, None)
+    for b, sts in bout.items():
+        c = f.term_cond(b)
+        if c is not None and 'unset' in sts and reads(c):
+            problems.append(f.block_sites(b)[-1] if f.block_sites(b) else None)
+    probs = [t for t in problems if t is not None]
+    R.ob(rule, not problems, probs[0] if probs else f, 'the facility an entry routes is looked up from the entry\'s own text: the output *%s is assigned before it is read' % tp, key='facility-out-param',
+         detail=sorted({t.loc for t in probs}) or None)
+    R.floor(rule, 1)
 
 
 def final(e):
@@ -464,6 +513,7 @@ def run(P, R, tier):
     range_bounds(P, R)
     exact_names(P, R)
     destination_identity(P, R)
+    facility_by_name(P, R)
     complete_text(P, R)
     wiring(P, R, h)
     record_format(P, R)
@@ -478,4 +528,9 @@ def run(P, R, tier):
     rules.counter_widths(P, R, 'C18.WID.2', recs=('log_destination', 'log_destination_vector', 'log_type'))
     # a facility is found again by its name: the registry keeps its own copy of it
     rules.param_string_escapes(P, R, 'C18.OWN.9', ('src/log.c',))
+    # severity sets are built up element by element of the comma list: the primitives used to add a name or a range keep
+    # what the earlier elements put there
+    rules.bitset_primitives(P, R, 'C18.TAB.7')
+    # "after a reload the routing is that of the new section": a reload request that reaches the reader is applied
+    c15.load_merges(P, Remap(R, {'C15.MPT.3': 'C18.MPT.6', 'C15.WMC.1': 'C18.MPT.6'}))
     return EXPLANATION, ASSUMPTIONS
